@@ -971,11 +971,13 @@ func (r *dxRecorder) RemovePath(pfx *bnet.Prefix, p *route.Path) bool {
 	return true
 }
 
-func (r *dxRecorder) AddPathInitialDump(pfx *bnet.Prefix, p *route.Path) error { return r.AddPath(pfx, p) }
-func (r *dxRecorder) EndOfRIB()                                              {}
-func (r *dxRecorder) ReplacePath(*bnet.Prefix, *route.Path, *route.Path)      {}
-func (r *dxRecorder) RefreshRoute(*bnet.Prefix, []*route.Path)               {}
-func (r *dxRecorder) Dispose()                                               {}
+func (r *dxRecorder) AddPathInitialDump(pfx *bnet.Prefix, p *route.Path) error {
+	return r.AddPath(pfx, p)
+}
+func (r *dxRecorder) EndOfRIB()                                          {}
+func (r *dxRecorder) ReplacePath(*bnet.Prefix, *route.Path, *route.Path) {}
+func (r *dxRecorder) RefreshRoute(*bnet.Prefix, []*route.Path)           {}
+func (r *dxRecorder) Dispose()                                           {}
 
 // viewSet returns the canonical attribute strings the peer holds for a prefix.
 func (r *dxRecorder) viewSet(pfx string, mask func(dxAttrs) dxMask) []string {
@@ -1020,4 +1022,204 @@ func dxGuard(f func()) (msg string) {
 	}()
 	f()
 	return ""
+}
+
+// dxMutate changes one attribute of a so that preference or ECMP membership
+// or just the identity of the path changes.
+func dxMutate(t *rapid.T, a dxAttrs) (dxAttrs, string) {
+	b := a.clone()
+	if a.Static {
+		b.NH = 0xc0000280 + (a.NH+1)%4
+		return b, "static-nh"
+	}
+	switch rapid.IntRange(0, 6).Draw(t, "mut") {
+	case 0:
+		b.LP = a.LP + 10
+		return b, "lp+"
+	case 1:
+		if a.LP >= 10 {
+			b.LP = a.LP - 10
+		} else {
+			b.LP = a.LP + 1
+		}
+		return b, "lp-"
+	case 2:
+		b.MED = a.MED + 1
+		return b, "med+"
+	case 3:
+		b.NH = a.NH ^ 1
+		return b, "nh"
+	case 4:
+		if len(a.Comms) > 0 {
+			b.Comms = nil
+		} else {
+			b.Comms = []uint32{rapid.SampledFrom([]uint32{0xfde80009, dxCommNoExport, dxCommNoAdvertise}).Draw(t, "mutcomm")}
+		}
+		return b, "comm"
+	case 5:
+		if a.OTC != 0 {
+			b.OTC = 0
+		} else {
+			b.OTC = 64700
+		}
+		return b, "otc"
+	default:
+		b.Origin = (a.Origin + 1) % 3
+		return b, "origin"
+	}
+}
+
+// ---------------------------------------------------------------------------
+// history driver: generates Loc-RIB operations the way Adj-RIB-Ins and the
+// static configuration produce them
+
+// dxOp is one Loc-RIB call.
+type dxOp struct {
+	Add     bool
+	Pfx     int
+	Attrs   dxAttrs
+	SameObj bool // RemovePath is called with the very object that was added (else an equal copy)
+	Why     string
+}
+
+func (o dxOp) String(bits []kit.Bits) string {
+	k := "remove"
+	if o.Add {
+		k = "add"
+	}
+	return fmt.Sprintf("%s(%s) %v %v rx=%d", k, o.Why, bits[o.Pfx], o.Attrs, o.Attrs.RxPathID)
+}
+
+// dxHist keeps the Loc-RIB content by value and draws the next step. It keeps
+// the invariants every real Loc-RIB keeps: per prefix at most one path per
+// neighbour unless that neighbour's session has add-path receive, in which
+// case its paths differ in the received path identifier (so no two paths of a
+// prefix are Compare-equal); an update for an existing (neighbour[, path id])
+// arrives as RemovePath(old) + AddPath(new); static and BGP paths are not
+// mixed under one prefix (see c08 notes).
+type dxHist struct {
+	t      *rapid.T
+	opts   dxGenOpts
+	model  [][]dxAttrs
+	rx     map[uint32]bool
+	nextRx uint32
+	pool   []dxAttrs // when set, BGP paths are drawn from this pool (C11)
+	// noStatic: never draw static routes
+	noStatic bool
+}
+
+func newDxHist(t *rapid.T, npfx int, o dxGenOpts) *dxHist {
+	h := &dxHist{t: t, opts: o, model: make([][]dxAttrs, npfx), rx: map[uint32]bool{}, nextRx: 1}
+	for i, p := range dxPeers {
+		h.rx[p.IP] = rapid.IntRange(0, 2).Draw(t, fmt.Sprintf("rx%d", i)) == 0
+	}
+	return h
+}
+
+func (h *dxHist) rxList() []string {
+	var out []string
+	for _, p := range dxPeers {
+		if h.rx[p.IP] {
+			out = append(out, dxIP(p.IP))
+		}
+	}
+	return out
+}
+
+func (h *dxHist) has(i int, a dxAttrs) bool {
+	for _, e := range h.model[i] {
+		if dxCompareKey(e) == dxCompareKey(a) {
+			return true
+		}
+	}
+	return false
+}
+
+func (h *dxHist) del(i int, a dxAttrs) {
+	for j, e := range h.model[i] {
+		if dxCompareKey(e) == dxCompareKey(a) {
+			h.model[i] = append(append([]dxAttrs{}, h.model[i][:j]...), h.model[i][j+1:]...)
+			return
+		}
+	}
+}
+
+// next draws one step: one or two Loc-RIB calls.
+func (h *dxHist) next() []dxOp {
+	t := h.t
+	i := rapid.IntRange(0, len(h.model)-1).Draw(t, "pfx")
+	cur := h.model[i]
+	hasStatic := len(cur) > 0 && cur[0].Static
+	hasBGP := len(cur) > 0 && !cur[0].Static
+	op := rapid.IntRange(0, 9).Draw(t, "op")
+	if len(cur) == 0 {
+		op = 0
+	}
+	same := rapid.IntRange(0, 3).Draw(t, "sameobj") == 0
+	switch {
+	case op <= 4: // new path
+		if hasStatic || (!hasBGP && !h.noStatic && rapid.IntRange(0, 3).Draw(t, "static") == 0) {
+			a := dxGenStatic(t, "st")
+			if h.has(i, a) {
+				return nil
+			}
+			h.model[i] = append(h.model[i], a)
+			return []dxOp{{Add: true, Pfx: i, Attrs: a, Why: "static"}}
+		}
+		var a dxAttrs
+		why := "new"
+		switch {
+		case len(h.pool) > 0:
+			a = h.pool[rapid.IntRange(0, len(h.pool)-1).Draw(t, "pool")].clone()
+			why = "pool"
+		case len(cur) > 0 && rapid.Bool().Draw(t, "derive"):
+			base := cur[rapid.IntRange(0, len(cur)-1).Draw(t, "base")]
+			var how string
+			a, how = dxMutate(t, base)
+			why = "like+" + how
+			if rapid.Bool().Draw(t, "othersrc") {
+				peer := dxPeers[rapid.IntRange(0, len(dxPeers)-1).Draw(t, "osrc")]
+				if peer.EBGP == a.EBGP {
+					a.Src = peer.IP
+					if a.EBGP {
+						a.ASPath[0].ASNs[0] = peer.ASN
+					}
+				}
+			}
+		default:
+			a = dxGenBGP(t, "bgp", h.opts)
+		}
+		a.RxPathID = 0
+		var ops []dxOp
+		if h.rx[a.Src] {
+			a.RxPathID = h.nextRx
+			h.nextRx++
+		} else {
+			for _, e := range cur {
+				if e.Src == a.Src {
+					if dxCompareKey(e) == dxCompareKey(a) {
+						return nil
+					}
+					// implicit replace of the neighbour's previous path
+					h.del(i, e)
+					ops = append(ops, dxOp{Pfx: i, Attrs: e, SameObj: same, Why: "implicit"})
+				}
+			}
+		}
+		h.model[i] = append(h.model[i], a)
+		return append(ops, dxOp{Add: true, Pfx: i, Attrs: a, Why: why})
+	case op <= 6: // update of an existing path: one attribute changes
+		old := cur[rapid.IntRange(0, len(cur)-1).Draw(t, "victim")]
+		nw, how := dxMutate(t, old)
+		if h.has(i, nw) {
+			return nil
+		}
+		h.del(i, old)
+		h.model[i] = append(h.model[i], nw)
+		return []dxOp{{Pfx: i, Attrs: old, SameObj: same, Why: "update"}, {Add: true, Pfx: i, Attrs: nw, Why: "update:" + how}}
+	default:
+		old := cur[rapid.IntRange(0, len(cur)-1).Draw(t, "victim")]
+		h.del(i, old)
+		return []dxOp{{Pfx: i, Attrs: old, SameObj: same, Why: "withdraw"}}
+	}
 }
